@@ -11,7 +11,9 @@ certificates:
   equivalent to l modulo the stabilizer group (GF(2) elimination, which also yields the selection
   mask), then a small depth-first search for d pairwise disjoint ones; when translates are not
   enough, representatives avoiding the qubits already used are solved for by linear algebra and
-  lightened by a greedy descent over the generators.
+  lightened by a greedy descent over the generators.  The periodic 6.6.6 colour code (n = 18 L^2,
+  d = 4 L) needs an exact packing: the 3L translates of the listed zig-zag string plus the L closed
+  straight lines of the same colour that are left over (`symmetric_packing_cert`).
 * exhaustive: no data; the Lean checker enumerates every Pauli of weight < d.  Chosen when the
   number of candidates is within the kernel budget.
 * css: no data; for CSS codes the Lean checker enumerates the pure X-type and pure Z-type
@@ -269,9 +271,138 @@ def packing_for_logical(inst: Inst, red: Reducer, l: int) -> Optional[List[int]]
     return [s for _, s in fam]
 
 
+# ---- exact packings of the periodic 6.6.6 colour code ------------------------------------------
+# n = 18 L^2, d = 4 L: a packing has to use almost every qubit.  For a listed string of colour c it
+# consists of the 3L lattice translates of the string that are equivalent to it (zig-zags through two
+# of the three directions of c-edges) and the L closed straight lines through the c-edges of the
+# third direction (6L qubits each), which are what is left over.  The translations are those of the
+# face lattice (a, b) -> (x + 3a, y + 2a + 4b) modulo <(9L, 6L), (0, 12L)>, acting on the qubits through
+# (face, corner index); the left-over lines are the connected components of the unused qubits under
+# "lie on a common face".  Selection masks do not depend on a deformation (it acts qubit-wise on all
+# rows), so they are computed on the undeformed code.
+
+_SYM_CACHE: Dict[Tuple[str, Tuple[int, ...]], Optional[List[List[int]]]] = {}
+
+
+def _color666toric_translations(inst: Inst) -> List[Dict[int, int]]:
+    code, L = inst.code, inst.size[0]
+    faces = [tuple(int(v) for v in s[:2]) for s in code.stabilizer_coordinates if int(s[2]) == 0]
+    fset = set(faces)
+    corners = {f: [tuple(int(v) for v in q) for q in code.get_stabilizer(f + (0,)).keys()] for f in faces}
+    idx = inst.coord_index
+
+    def canon(x, y):
+        for k in range(-3, 4):
+            for m in range(-3, 4):
+                c = (x - 9 * L * k, y - 6 * L * k - 12 * L * m)
+                if c in fset:
+                    return c
+        return None
+    perms = []
+    for a in range(3 * L):
+        for b in range(3 * L):
+            perm: Dict[int, int] = {}
+            ok = True
+            for f in faces:
+                g = canon(f[0] + 3 * a, f[1] + 2 * a + 4 * b)
+                if g is None:
+                    ok = False
+                    break
+                for q, r in zip(corners[f], corners[g]):
+                    if perm.setdefault(idx[q], idx[r]) != idx[r]:
+                        ok = False
+                        break
+                if not ok:
+                    break
+            if ok and len(perm) == inst.n and len(set(perm.values())) == inst.n:
+                perms.append(perm)
+    return perms
+
+
+def _symmetric_packing(inst: Inst, red: Reducer, l: int, perms, gen_supports) -> Optional[List[int]]:
+    n, d = inst.n, inst.d
+    lo = (1 << n) - 1
+    x, z = l & lo, l >> n
+    if x and z:
+        return None
+    sup = [q for q in range(n) if (supp(n, l) >> q) & 1]
+
+    def mk(qs):
+        v = 0
+        for q in qs:
+            v |= 1 << q
+        return v if x else v << n
+    cands: Dict[int, int] = {}
+    for p in perms:
+        v = mk(p[q] for q in sup)
+        if v not in cands:
+            res, sel = red.reduce(v ^ l)
+            if res == 0:
+                cands[v] = sel
+    fam: List[int] = []
+    used = 0
+    for v, sel in sorted(cands.items()):
+        sp = supp(n, v)
+        if not sp & used:
+            fam.append(sel)
+            used |= sp
+    rem = [q for q in range(n) if not (used >> q) & 1]
+    remset = set(rem)
+    adj: Dict[int, set] = {q: set() for q in rem}
+    for g in gen_supports:
+        qs = [q for q in g if q in remset]
+        for a in qs:
+            adj[a].update(b for b in qs if b != a)
+    seen = set()
+    for q in rem:
+        if q in seen:
+            continue
+        comp, stack = [], [q]
+        seen.add(q)
+        while stack:
+            u = stack.pop()
+            comp.append(u)
+            for w in adj[u]:
+                if w not in seen:
+                    seen.add(w)
+                    stack.append(w)
+        res, sel = red.reduce(mk(comp) ^ l)
+        if res == 0:
+            fam.append(sel)
+    return fam[:d] if len(fam) >= d else None
+
+
+def symmetric_packing_cert(cls: str, size: Tuple[int, ...]) -> Optional[List[List[int]]]:
+    """exact packing for the classes that need one (Color666ToricCode), on the undeformed code"""
+    key = (cls, tuple(size))
+    if key in _SYM_CACHE:
+        return _SYM_CACHE[key]
+    out: Optional[List[List[int]]] = None
+    if cls == 'Color666ToricCode':
+        try:
+            inst = Inst(cls, size)
+            perms = _color666toric_translations(inst)
+            red = Reducer(inst.H)
+            gsup = [[q for q in range(inst.n) if (supp(inst.n, g) >> q) & 1] for g in inst.H]
+            out = []
+            for l in inst.LX + inst.LZ:
+                sels = _symmetric_packing(inst, red, l, perms, gsup)
+                if sels is None:
+                    out = None
+                    break
+                out.append(sels)
+        except Exception:
+            out = None
+    _SYM_CACHE[key] = out
+    return out
+
+
 def packing_cert(inst: Inst) -> Optional[List[List[int]]]:
     if inst.d * inst.d > inst.n and inst.d > 1:
         return None
+    sym = symmetric_packing_cert(inst.cls, inst.size)
+    if sym is not None and verify_packing(inst, sym):
+        return sym
     red = Reducer(inst.H)
     out = []
     for l in inst.LX + inst.LZ:
